@@ -10,10 +10,17 @@ while IFS='	' read -r id demo dest pkg run; do
   d=/verif/seeded/$id
   cd $W && git reset -q --hard && git clean -fdq
   # patch.diff is what the seeding agent delivered; patch.rebased.diff is the same change on today's HEAD (after later fix: commits)
-  if git apply "$d/patch.diff" 2>/dev/null || git apply --3way "$d/patch.diff" 2>/dev/null; then git diff > "$d/patch.rebased.diff"
+  if git apply "$d/patch.diff" 2>/dev/null || git apply --3way "$d/patch.diff" 2>/dev/null; then git diff HEAD > "$d/patch.rebased.diff"
   elif git reset -q --hard && [ -s "$d/patch.rebased.diff" ] && git apply "$d/patch.rebased.diff" 2>/dev/null; then :
   else echo "$id APPLY-FAIL"; git checkout -q -- .; continue; fi
   base=$(/verif/tools/baseline.sh $W | tail -1)
+  if [ "$demo" = run.sh ]; then
+    # self-contained driver (generates bindings from a manifest, compiles and tests them); expects to live in <worktree>/_seed/N
+    mkdir -p $W/_seed/1 && cp $d/* $W/_seed/1/
+    with=$(sh $W/_seed/1/run.sh 2>&1 | tail -1); git reset -q --hard
+    without=$(sh $W/_seed/1/run.sh 2>&1 | tail -1); rm -rf $W/_seed; git clean -fdq
+    echo "$id | baseline: $base | with: $with | without: $without"; continue
+  fi
   cp "$d/$demo" "$W/$dest/zz_seed_demo_test.go"
   with=$(cd $W/v2 && go test -mod=mod -vet=off -count=1 -run "$run" "$pkg" 2>&1 | tail -1)
   git reset -q --hard; 
